@@ -100,4 +100,53 @@ template <class T> static FX_NOINLINE void run_chain(fx::Ctx& fx, const CJob<T>&
     }
 }
 
+// ---------------------------------------------------------------------------------------------------------------
+// rectangular operands: D (op)= <lazy tree over A (m x n), B (m x n)>; destination extents follow from the statement
+// ---------------------------------------------------------------------------------------------------------------
+template <class T> struct RJob { size_t nA, nD, sizeofA, sizeofD; void (*lazy)(void* D, const void* A, const void* B); void (*eager)(void* D, const void* A, const void* B); };
+
+template <class T> static FX_NOINLINE void run_rect_job(fx::Ctx& fx, const RJob<T>& j) {
+    fx.arena[0].paint(); fx.arena[1].paint();
+    unsigned char* base = fx.arena[1].lo + 256;
+    const size_t stride = (j.sizeofA + 63) / 64 * 64 + 64;
+    T *A = (T*)base, *B = (T*)(base + stride);
+    unsigned char* dp = fx.arena[0].place_mid(j.sizeofD, 64); T* D = (T*)dp;
+    std::vector<T> d0(j.nD), dl(j.nD), de(j.nD);
+    const long double u = fxv::unit_roundoff<T>::v();
+    for (unsigned variant = 0; variant < 2; ++variant) {
+        // strictly positive, pairwise distinct within an operand: no product or sum on the right-hand side can vanish
+        for (size_t i = 0; i < j.nA; ++i) { A[i] = (T)(1.0 + 0.25 * (double)((i * 3 + variant) % (j.nA + 1)) + 0.125 * (double)i); B[i] = (T)(2.0 + 0.5 * (double)((i * 5 + 2 * variant) % (j.nA + 2)) + 0.0625 * (double)i); }
+        for (size_t i = 0; i < j.nD; ++i) d0[i] = (T)(1.5 + (double)((i * 7 + variant) % 5) * 0.5) * ((i + variant) % 3 == 0 ? -1 : 1);
+        fx.pt("data=%lld", (long long)variant);
+        memcpy(D, d0.data(), j.nD * sizeof(T));
+        if (!fx.run([&] { j.eager(dp, A, B); })) { memset(dp, fx::Arena::CAN, j.sizeofD); continue; }
+        memcpy(de.data(), D, j.nD * sizeof(T));
+        fx.frame(0, dp, j.sizeofD, "eager statement wrote outside the destination");
+        memset(dp, fx::Arena::CAN, j.sizeofD);
+        memcpy(D, d0.data(), j.nD * sizeof(T));
+        if (!fx.run([&] { j.lazy(dp, A, B); })) { memset(dp, fx::Arena::CAN, j.sizeofD); continue; }
+        memcpy(dl.data(), D, j.nD * sizeof(T));
+        fx.frame(0, dp, j.sizeofD, "lazy statement wrote outside the destination");
+        memset(dp, fx::Arena::CAN, j.sizeofD);
+        long double scale = 0; for (size_t i = 0; i < j.nD; ++i) { long double v = fabsl((long double)de[i]); if (v == v && !std::isinf((double)de[i]) && v > scale) scale = v; }
+        std::vector<long double> ex(j.nD), bd(j.nD);
+        for (size_t i = 0; i < j.nD; ++i) { ex[i] = (long double)de[i]; bd[i] = 64.0L * (long double)j.nA * u * (scale + fabsl(ex[i])) + (long double)std::numeric_limits<T>::min(); }
+        fx.tol(dl.data(), ex.data(), bd.data(), j.nD, "lazy vs eager (rectangular)");
+        if (!memcmp(de.data(), d0.data(), j.nD * sizeof(T))) fx.route("info.statement_left_destination_unchanged");
+    }
+}
+template <class K> static FX_NOINLINE void rl(void* D, const void* A, const void* B) {
+    fx::escape(D); fx::escape(A); fx::escape(B);
+    K::lazy(*static_cast<typename K::MD*>(D), *static_cast<const typename K::MA*>(A), *static_cast<const typename K::MA*>(B)); fx::clobber();
+}
+template <class K> static FX_NOINLINE void re(void* D, const void* A, const void* B) {
+    fx::escape(D); fx::escape(A); fx::escape(B);
+    K::eager(*static_cast<typename K::MD*>(D), *static_cast<const typename K::MA*>(A), *static_cast<const typename K::MA*>(B)); fx::clobber();
+}
+template <class K> static inline void run_rect(fx::Ctx& fx) {
+    using T = typename K::T;
+    RJob<T> j{(size_t)K::MA::size(), (size_t)K::MD::size(), sizeof(typename K::MA), sizeof(typename K::MD), &rl<K>, &re<K>};
+    run_rect_job<T>(fx, j);
+}
+
 } // namespace c09
